@@ -896,6 +896,41 @@ def size_form(e, fn, at, depth=0):
                 d = defs[0]
                 if not _redefined_between(fn, _names(d.rhs), d.node, at):
                     return size_form(d.rhs, fn, d.node, depth + 1)
+            # a length that is added up: `len = strlen(a) + 1; if (b) len += strlen(b) + 1;` - the terms of an addition count under the
+            # condition the addition stands under (cond_terms: [(term, frozenset of (atom, polarity))])
+            ups = [d for d in alld if d not in defs]
+            if len(defs) == 1 and defs[0].rhs is not None and ups and all(
+                    d.node is not None and d.node.k == "CompoundAssignOperator" and d.node.j.get("op") == "+=" for d in ups):
+                base = size_form(defs[0].rhs, fn, defs[0].node, depth + 1)
+                if not base["nonlinear"] and not base["opaque"]:
+                    cfg = fn.cfg
+                    base.setdefault("cond_terms", [])
+                    for d in ups:
+                        addend = d.node.children[1]
+                        # a conditional addend `(p != NULL ? 1 : 0)` contributes no strlen term
+                        parts = size_form(addend, fn, d.node, depth + 1) if addend.strip().k != "ConditionalOperator" else dict(terms=[], const=0, opaque=[], nonlinear=False)
+                        if addend.strip().k == "BinaryOperator":
+                            # strlen(x) + (c ? 1 : 0): look at the summands one by one
+                            def summands(x):
+                                x0 = x.strip()
+                                if x0.k == "BinaryOperator" and x0.j.get("op") == "+":
+                                    return summands(x0.children[0]) + summands(x0.children[1])
+                                return [x0]
+                            parts = dict(terms=[], const=0, opaque=[], nonlinear=False)
+                            for sm in summands(addend):
+                                if sm.k == "ConditionalOperator":
+                                    continue
+                                pf = size_form(sm, fn, d.node, depth + 1)
+                                parts["terms"] += pf["terms"]
+                                parts["nonlinear"] = parts["nonlinear"] or pf["nonlinear"]
+                                parts["opaque"] += pf["opaque"]
+                        if parts["nonlinear"] or parts["opaque"]:
+                            base["nonlinear"] = True
+                            break
+                        guards = frozenset((l.atom, l.pol) for l in cfg.required_literals(cfg.block_of(d.node)) if l is not None)
+                        for t in parts["terms"]:
+                            base["cond_terms"].append((t, guards))
+                    return base
         out["opaque"] = [e.j["name"]]
         return out
     if cv is not None:
@@ -956,6 +991,15 @@ def analyse_heap_copies(prog, util=False):
                     sz = al.call_args()[0]
                 form = size_form(sz, f, al)
                 if src in form["terms"] and not _redefined_between(f, _names(a[1]), al, c):
+                    continue
+                if form.get("cond_terms") and not _redefined_between(f, _names(a[1]), al, c):
+                    here = frozenset((l.atom, l.pol) for l in f.cfg.required_literals(f.cfg.block_of(c)) if l is not None)
+                    if any(t == src and g <= here for t, g in form["cond_terms"]):
+                        continue
+                if form["opaque"]:
+                    if verdict == "ok":
+                        verdict = "unknown"
+                    why.append("size %s at %s depends on `%s`, which is not followed" % (render(sz), al.where, form["opaque"][0]))
                     continue
                 if form["nonlinear"]:
                     if verdict == "ok":
